@@ -33,6 +33,7 @@ import (
 	"io"
 	"os"
 	"runtime"
+	"sort"
 	"strings"
 	"sync"
 	"sync/atomic"
@@ -62,9 +63,9 @@ const (
 var c04Payload = []byte("c04-ping")
 
 const (
-	c04LateBy      = 3 * time.Second // a "late" remote answers after this long: inside identify's 5 s and the 10 s negotiation timeout
-	c04ShortCtx    = 1 * time.Second // ctxend:deadline - the NewStream context expires while the remote still stalls
-	c04ShortNegTmo = 2 * time.Second // ctxend:negtimeout - HostOpts.NegotiationTimeout of the opener, its context has no deadline
+	c04LateBy       = 3 * time.Second // a "late" remote answers after this long: inside identify's 5 s and the 10 s negotiation timeout
+	c04ShortCtx     = 1 * time.Second // ctxend:deadline - the NewStream context expires while the remote still stalls
+	c04ShortNegTmo  = 2 * time.Second // ctxend:negtimeout - HostOpts.NegotiationTimeout of the opener, its context has no deadline
 	c04NewStreamMax = 2 * time.Minute // virtual: a stream attempt that has not returned by then is recorded as hung and audited as it is
 )
 
@@ -142,10 +143,10 @@ type c04Result struct {
 	AtReturn string `json:"at_return,omitempty"`
 	// ConnOnlyOK (families without a stalled identify): before NewStream, with the connection up and identify
 	// over, no scope accounted a stream or memory - the premise of c04ConnOnly
-	ConnOnlyOK bool              `json:"conn_only_ok,omitempty"`
-	Vios       []memtpt.Vio      `json:"violations,omitempty"`
-	Infra   string            `json:"infra,omitempty"`
-	Trace   []string          `json:"trace,omitempty"`
+	ConnOnlyOK bool         `json:"conn_only_ok,omitempty"`
+	Vios       []memtpt.Vio `json:"violations,omitempty"`
+	Infra      string       `json:"infra,omitempty"`
+	Trace      []string     `json:"trace,omitempty"`
 }
 
 func (r *c04Result) class() string {
@@ -464,22 +465,58 @@ func c04RunInBubble(cs c04Case, res *c04Result) {
 	hasConn := func(i int) bool { return len(nodes[i].sw.ConnsToPeer(nodes[1-i].side.ID)) > 0 }
 	if hasConn(0) {
 		var preStream [2]memnet.Snap
-		var hadConn [2]bool
 		for i, n := range nodes {
 			preStream[i], _ = memnet.Snapshot(n.side.RM)
-			hadConn[i] = hasConn(i)
 		}
+		// families without a stalled identify: the connection is up, identify is over - nothing but the
+		// connection may be accounted (the premise of c04ConnOnly, reported by the dry runs)
+		res.ConnOnlyOK = len(c04ConnOnly(preStream[0]).Diff(preStream[0]))+len(c04ConnOnly(preStream[1]).Diff(preStream[1])) == 0
 		pid := c04Proto
 		switch cs.Mode {
 		case "negotiated":
 			pid = c04Proto2
 		case "unsupported":
 			pid = c04NoProto
+		case "lazy-stale":
+			// the opener believes (from an earlier session, say) that the peer speaks a protocol it does not
+			// speak: NewStream takes the optimistic path and the refusal only shows at the first read
+			pid = c04NoProto
+			a.h.Peerstore().AddProtocols(b.side.ID, c04NoProto)
+		case "pstore-error":
+			a.ps.fail.Store(true)
 		}
-		res.Stream = func() string {
-			s, err := a.h.NewStream(network.WithNoDial(ctx, "c04"), b.side.ID, pid)
+		if strings.HasPrefix(cs.Stall, "neg-") {
+			armStall(stallKind)
+		}
+		// the context of NewStream
+		nsCtx, nsCancel := context.WithCancel(ctx)
+		if f.Kind == "ctxend" {
+			switch f.What {
+			case "deadline":
+				nsCancel()
+				nsCtx, nsCancel = context.WithTimeout(ctx, c04ShortCtx)
+			case "negtimeout": // no deadline at all: BasicHost.NewStream then applies its negotiation timeout
+				nsCancel()
+				nsCtx, nsCancel = context.WithCancel(context.Background())
+			}
+		}
+		defer nsCancel()
+		var nsReturned atomic.Bool
+		var atReturn [2]memnet.Snap
+		returned := make(chan struct{})
+		attempt := func() string {
+			s, err := a.h.NewStream(network.WithNoDial(nsCtx, "c04"), b.side.ID, pid)
+			nsReturned.Store(true)
 			if err != nil {
 				h.Trace("NewStream: %v", err)
+				if f.Kind == "ctxend" {
+					if errors.Is(err, context.Canceled) || errors.Is(err, context.DeadlineExceeded) {
+						if f.What != "cancel" {
+							h.MarkFired()
+						}
+					}
+					close(returned)
+				}
 				return "newstream:" + c04ErrClass(err)
 			}
 			s.SetDeadline(time.Now().Add(10 * time.Second))
@@ -498,7 +535,50 @@ func c04RunInBubble(cs c04Case, res *c04Result) {
 				h.Trace("stream close: %v", err)
 			}
 			return "echo-ok"
-		}()
+		}
+		done := make(chan string, 1)
+		go func() { done <- attempt() }()
+		synctest.Wait()
+		if f.Kind == "ctxend" && f.What == "cancel" && !nsReturned.Load() {
+			// every goroutine of the bubble is idle and NewStream has not returned: it waits for the remote
+			// (for the identify of its connection, or for the answer to its protocol proposal)
+			h.MarkFired()
+			h.Trace("fault: NewStream is blocked; its context is cancelled")
+			nsCancel()
+		}
+		if f.Kind == "ctxend" {
+			// observation only: what is accounted at the moment NewStream has given up, before any time passes
+			select {
+			case <-returned:
+				synctest.Wait()
+				obs := ""
+				for i, n := range nodes {
+					atReturn[i], _ = memnet.Snapshot(n.side.RM)
+					if len(preStream[i].Diff(atReturn[i])) == 0 {
+						obs += n.side.Name + "=restored "
+					} else {
+						obs += n.side.Name + "=differs "
+					}
+				}
+				res.AtReturn = strings.TrimSpace(obs)
+				h.Trace("at return (no time passed): %s", res.AtReturn)
+			case res.Stream = <-done:
+				done <- res.Stream
+			case <-time.After(c04NewStreamMax):
+			}
+		}
+		select {
+		case res.Stream = <-done:
+		case <-time.After(c04NewStreamMax):
+			res.Stream = "hung"
+			if !nsReturned.Load() {
+				res.Stream = "newstream:hung"
+			}
+			h.Trace("the stream attempt has not returned after %v; auditing as it is", c04NewStreamMax)
+		}
+		if a.ps != nil {
+			a.ps.fail.Store(false)
+		}
 		h.Trace("stream: %s", res.Stream)
 		// negotiation timeouts are 10s, identify 5s, yamux write timeout 10s
 		time.Sleep(45 * time.Second)
@@ -510,12 +590,30 @@ func c04RunInBubble(cs c04Case, res *c04Result) {
 			}
 			now, _ := memnet.Snapshot(n.side.RM)
 			want, what := preStream[i], "before NewStream"
-			if hadConn[i] && !hasConn(i) {
+			if cs.idStall() {
+				want, what = c04ConnOnly(preStream[i]), "before NewStream (less the streams and stream memory of the identify exchange that was in flight then and is over now)"
+			}
+			if !hasConn(i) {
+				// also when this side had not finished admitting the connection before NewStream (DialPeer
+				// returns when the dialer is done): whatever it held for the half-made connection is over too
 				want, what = preConnect[i], "before Connect (the connection is gone)"
 			}
 			if d := want.Diff(now); len(d) > 0 {
 				h.Vio("stream-usage-not-restored/"+n.side.Name, "host %s: after the stream attempt was over (%s) and the stream was closed, resource usage differs from its value %s: %s",
 					n.side.Name, res.Stream, what, strings.Join(d, "; "))
+			}
+			// every stream of the run has failed or finished by now (the harness closed or reset what it was
+			// given, identify's and the negotiation timeouts have passed): none may still be registered
+			for _, c := range n.sw.Conns() {
+				if st := c.GetStreams(); len(st) > 0 {
+					var l []string
+					for _, x := range st {
+						l = append(l, fmt.Sprintf("%s %s protocol=%q", x.ID(), x.Stat().Direction, x.Protocol()))
+					}
+					sort.Strings(l)
+					h.Vio("stream-left-on-conn/"+n.side.Name, "host %s: after the stream attempt was over (%s) and every timeout had passed, its connection to %s still lists %d stream(s) in GetStreams(): %s",
+						n.side.Name, res.Stream, c.RemotePeer(), len(st), strings.Join(l, ", "))
+				}
 			}
 		}
 	}
@@ -647,9 +745,15 @@ func c04Run(t *testing.T, cs c04Case) *c04Result {
 	return res
 }
 
-func c04Cases(cfg memtpt.Config, mode string, dry *c04Result, full bool) []c04Case {
+func c04Cases(cfg memtpt.Config, mode, stall string, dry *c04Result, full bool) []c04Case {
 	var cases []c04Case
-	add := func(f memtpt.Fault) { cases = append(cases, c04Case{Cfg: cfg, Mode: mode, Fault: f}) }
+	add := func(f memtpt.Fault) { cases = append(cases, c04Case{Cfg: cfg, Mode: mode, Stall: stall, Fault: f}) }
+	if stall != "" {
+		// the NewStream context ends while NewStream waits for the stalling remote
+		for _, how := range []string{"cancel", "deadline", "negtimeout"} {
+			add(memtpt.Fault{Kind: "ctxend", Side: "a", What: how})
+		}
+	}
 	for si, side := range []string{"a", "b"} {
 		// full: every index of the run; otherwise only the stream phase (the connect phase is the same in every mode)
 		k0 := 0
@@ -678,6 +782,67 @@ func c04Cases(cfg memtpt.Config, mode string, dry *c04Result, full bool) []c04Ca
 		}
 	}
 	return cases
+}
+
+// c04Families lists the (mode, remote stall) families. The first four are the original modes (their order
+// matters: the connect phase is enumerated in the first). Quick: the new modes without a stall and a
+// selection of stalled families; thorough: the cross product.
+func c04Families(thorough bool) []c04Case {
+	modes := []string{"lazy", "negotiated", "unsupported", "handler-reset", "lazy-stale", "pstore-error"}
+	var out []c04Case
+	for _, m := range modes {
+		out = append(out, c04Case{Mode: m})
+	}
+	if thorough {
+		for _, st := range []string{"id-never", "id-late", "neg-never", "neg-late"} {
+			for _, m := range modes {
+				out = append(out, c04Case{Mode: m, Stall: st})
+			}
+		}
+		return out
+	}
+	for _, x := range [][2]string{
+		{"lazy", "id-never"}, {"unsupported", "id-never"}, {"pstore-error", "id-never"},
+		{"lazy", "id-late"}, {"negotiated", "id-late"}, {"lazy-stale", "id-late"},
+		{"lazy", "neg-never"}, {"negotiated", "neg-never"},
+		{"negotiated", "neg-late"},
+	} {
+		out = append(out, c04Case{Mode: x[0], Stall: x[1]})
+	}
+	return out
+}
+
+// c04WantStream is what the fault-free run of a family must do (any of the listed results).
+func c04WantStream(mode, stall string) []string {
+	switch mode {
+	case "pstore-error":
+		return []string{"newstream:pstore-error"}
+	case "unsupported":
+		if stall == "neg-never" { // nobody answers the proposal: the 30 s context of the run ends the negotiation
+			return []string{"newstream:proto-negotiation"}
+		}
+		return []string{"newstream:proto-unsupported"}
+	case "lazy-stale":
+		if stall == "id-late" { // the late identify answer replaces the stale entry before NewStream looks
+			return []string{"newstream:proto-unsupported"}
+		}
+		return []string{"read-failed"}
+	case "handler-reset":
+		if stall == "neg-never" {
+			break
+		}
+		// after a full negotiation the handler's reset may already be there when the opener reads the
+		// confirmation of its proposal, or when it writes
+		return []string{"read-failed", "write-failed", "newstream:proto-negotiation"}
+	}
+	// lazy, negotiated (and handler-reset when the remote never looks at the stream)
+	if stall == "neg-never" {
+		if mode == "negotiated" {
+			return []string{"newstream:proto-negotiation"}
+		}
+		return []string{"read-failed"} // optimistic path: NewStream returns at once, the read runs into its 10 s deadline
+	}
+	return []string{"echo-ok"}
 }
 
 func TestVerifC04Host(t *testing.T) {
@@ -731,11 +896,13 @@ func TestVerifC04Host(t *testing.T) {
 	if vrep.Thorough() {
 		cfgs = memtpt.Configs()
 	}
-	modes := []string{"lazy", "negotiated", "unsupported", "handler-reset"}
+	fams := c04Families(vrep.Thorough())
 	r.Bounds["configurations"] = fmt.Sprint(cfgs)
-	r.Bounds["modes"] = fmt.Sprint(modes)
+	r.Bounds["modes"] = fmt.Sprint(fams)
 	r.Bounds["faults_per_run"] = 1
 	r.Bounds["io_faults"] = fmt.Sprint(memtpt.IOFaultMenu())
+	r.Bounds["remote_stalls"] = fmt.Sprintf("identify / protocol negotiation of the new stream never answered or answered %v late", c04LateBy)
+	r.Bounds["ctxend"] = fmt.Sprintf("cancel() while NewStream is blocked; deadline %v; no deadline + NegotiationTimeout %v", c04ShortCtx, c04ShortNegTmo)
 	shard, nshards := vrep.Shard()
 	deadline := vrep.Deadline()
 	distinct := map[string]struct{}{}
@@ -743,19 +910,36 @@ func TestVerifC04Host(t *testing.T) {
 	idx, notReached := 0, 0
 	defer func() { r.Distinct = int64(len(distinct)) }()
 	for _, cfg := range cfgs {
-		for mi, mode := range modes {
-			cur = fmt.Sprintf("%s/%s dry run", cfg, mode)
-			dry := c04Run(t, c04Case{Cfg: cfg, Mode: mode, Fault: memtpt.Fault{Kind: "none"}})
+		connOnlyOK := true
+		for mi, fam := range fams {
+			mode := fam.Mode
+			if fam.Stall != "" && !vrep.Thorough() && cfg != cfgs[0] {
+				continue // quick: what BasicHost does with a stalling remote does not depend on the security transport
+			}
+			if fam.idStall() && !connOnlyOK {
+				r.Cap("%s/%s: skipped - a connection without streams was seen to account streams or memory, so the reference value for a stalled identify cannot be derived", cfg, fam.family())
+				continue
+			}
+			cur = fmt.Sprintf("%s/%s dry run", cfg, fam.family())
+			dry := c04Run(t, c04Case{Cfg: cfg, Mode: mode, Stall: fam.Stall, Fault: memtpt.Fault{Kind: "none"}})
 			r.Executions++
 			if dry.Infra != "" {
-				r.Cap("%s/%s: dry run failed for a harness reason: %s", cfg, mode, dry.Infra)
+				r.Cap("%s/%s: dry run failed for a harness reason: %s", cfg, fam.family(), dry.Infra)
 				continue
 			}
-			wantStream := map[string]string{"lazy": "echo-ok", "negotiated": "echo-ok", "unsupported": "newstream:proto-unsupported", "handler-reset": "read-failed"}[mode]
-			if dry.Connect != "ok" || dry.Stream != wantStream {
-				r.Violate("baseline-failed", fmt.Sprintf("%s/%s: the fault-free scenario did not behave as expected: connect=%s stream=%s (want %s)", cfg, mode, dry.Connect, dry.Stream, wantStream), dry)
+			want := c04WantStream(mode, fam.Stall)
+			okStream := false
+			for _, w := range want {
+				okStream = okStream || dry.Stream == w
+			}
+			if dry.Connect != "ok" || !okStream {
+				r.Violate("baseline-failed", fmt.Sprintf("%s/%s: the fault-free scenario did not behave as expected: connect=%s stream=%s (want %v)", cfg, fam.family(), dry.Connect, dry.Stream, want), dry)
 				continue
 			}
+			if !fam.idStall() && !dry.ConnOnlyOK {
+				connOnlyOK = false
+			}
+			mode = fam.family() // for the notes below
 			for _, v := range dry.Vios {
 				r.Violate(v.Key+"/baseline", fmt.Sprintf("%s/%s fault-free: %s", cfg, mode, v.Desc), dry)
 			}
@@ -769,7 +953,9 @@ func TestVerifC04Host(t *testing.T) {
 				}
 			}
 			// quick: the connect phase is enumerated once per configuration (mode "lazy"); thorough: in every mode
-			for _, cs := range c04Cases(cfg, mode, dry, mi == 0 || vrep.Thorough()) {
+			// of the original four, and with identify stalled (connection made by DialPeer) in mode "lazy"
+			full := mi == 0 || (vrep.Thorough() && (fam.Stall == "" && mi < 4 || fam.idStall() && fam.Mode == "lazy"))
+			for _, cs := range c04Cases(cfg, fam.Mode, fam.Stall, dry, full) {
 				idx++
 				if idx%nshards != shard {
 					continue
@@ -787,7 +973,7 @@ func TestVerifC04Host(t *testing.T) {
 				}
 				if !res.Fired {
 					notReached++
-					r.Outcome(cs.Mode + "|" + cs.Fault.Kind + "|fault position not reached")
+					r.Outcome(cs.family() + "|" + cs.Fault.Kind + "|fault position not reached")
 				} else {
 					distinct[cs.String()] = struct{}{}
 					classes[cfg.String()+"|"+cs.Fault.Side+"|"+res.class()] = struct{}{}
